@@ -18,6 +18,12 @@ pub fn property<C: Codec>() -> Property {
 }
 
 pub fn gen_command(rng: &mut Rng) -> UserKind {
+    if rng.chance(1, 12) {
+        // more objects than a small transmit buffer takes
+        let n = rng.urange(20, 40);
+        let var = rng.below(5) as u8;
+        return UserKind::Command { sbo: rng.bool(), headers: vec![(0..n).map(|i| (var, i as u16, false)).collect()] };
+    }
     let nh = *rng.pick(&[1usize, 1, 1, 2, 3]);
     let mut next_index = rng.below(200) as u16;
     let headers = (0..nh)
@@ -33,18 +39,29 @@ pub fn gen_command(rng: &mut Rng) -> UserKind {
                 .collect()
         })
         .collect();
-    UserKind::Command { sbo: rng.bool(), headers }
+    UserKind::Command {
+        sbo: rng.bool(),
+        headers,
+    }
 }
 
 pub fn gen_echo_mutation(rng: &mut Rng) -> EchoMutation {
     match rng.below(10) {
-        0 | 1 => EchoMutation::Status { object: rng.urange(0, 8), status: rng.range(1, 20) as u8 },
-        2 | 3 => EchoMutation::ValueBit { object: rng.urange(0, 8), bit: rng.below(96) as u8 },
+        0 | 1 => EchoMutation::Status {
+            object: rng.urange(0, 8),
+            status: rng.range(1, 20) as u8,
+        },
+        2 | 3 => EchoMutation::ValueBit {
+            object: rng.urange(0, 8),
+            bit: rng.below(96) as u8,
+        },
         4 => EchoMutation::DropLastObject,
         5 => EchoMutation::DuplicateLastObject,
         6 => EchoMutation::SwapFirstTwoObjects,
         7 => EchoMutation::DropLastHeader,
-        8 => EchoMutation::Index { object: rng.urange(0, 8) },
+        8 => EchoMutation::Index {
+            object: rng.urange(0, 8),
+        },
         _ => EchoMutation::Qualifier,
     }
 }
@@ -57,7 +74,13 @@ fn gen_reply(rng: &mut Rng, other: u16) -> Reply {
         7 => Reply::WrongSeq(rng.range(1, 15) as u8),
         8 => Reply::StaleThenFaithful(rng.range(1, 15) as u8),
         9 => Reply::ForeignThenFaithful(other),
-        10 => Reply::Late(rng.range(1, 7000)),
+        10 => {
+            if rng.bool() {
+                Reply::Late(rng.range(1, 7000))
+            } else {
+                Reply::FaithfulThenEof
+            }
+        }
         11 => {
             if rng.bool() {
                 Reply::Cut
@@ -86,7 +109,15 @@ fn gen_user(rng: &mut Rng) -> UserKind {
                 match rng.below(4) {
                     0 => UserKind::Directory(rng.below(5) as u8),
                     1 => UserKind::FileInfo,
-                    _ => UserKind::FileRead { blocks, block_size: rng.range(1, 20) as u8, abort_at: if rng.chance(1, 4) { Some(rng.below(blocks as u64 + 2) as u8) } else { None } },
+                    _ => UserKind::FileRead {
+                        blocks,
+                        block_size: rng.range(1, 20) as u8,
+                        abort_at: if rng.chance(1, 4) {
+                            Some(rng.below(blocks as u64 + 2) as u8)
+                        } else {
+                            None
+                        },
+                    },
                 }
             }
         }
@@ -149,6 +180,10 @@ impl Scenario for OutcomeScenario {
         cfg.decode_all = rng.chance(1, 12);
         cfg.reconnect_ms = *rng.pick(&[100u64, 1000]);
         cfg.connect_min_ms = cfg.reconnect_ms;
+        // a small transmit buffer: requests that do not fit must fail as such
+        cfg.tx = *rng.pick(&[2048usize, 2048, 249, 300]);
+        // an application without a clock: time synchronisation cannot even start
+        cfg.no_clock = rng.chance(1, 8);
         let timeout = *rng.pick(&[1000u64, 2000, 5000]);
         let mut a = AssocCfg::quiet(1024);
         a.response_timeout_ms = timeout;
@@ -181,11 +216,17 @@ impl Scenario for OutcomeScenario {
                 script.push(MOp::Replies { assoc, replies });
             }
             if rng.chance(1, 8) {
-                script.push(MOp::AnswerLinkStatus { assoc, on: rng.chance(1, 3) });
+                script.push(MOp::AnswerLinkStatus {
+                    assoc,
+                    on: rng.chance(1, 3),
+                });
             }
             let burst = *rng.pick(&[1usize, 1, 1, 2, 3]);
             for _ in 0..burst {
-                script.push(MOp::User { assoc, kind: gen_user(rng) });
+                script.push(MOp::User {
+                    assoc,
+                    kind: gen_user(rng),
+                });
             }
             // things that happen while the request waits
             let during = *rng.pick(&[0usize, 0, 1, 2, 4]);
@@ -203,9 +244,20 @@ impl Scenario for OutcomeScenario {
                     3 => MOp::RemoveAssoc(assoc),
                     4 => MOp::KillMaster,
                     5 | 6 => MOp::Poke,
-                    7 | 8 => MOp::Unsol { assoc, seq: rng.below(16) as u8, data: rng.bool(), con: rng.bool() },
-                    9 => MOp::Raw { src: 1024, bytes: vec![0xC0 | rng.below(16) as u8, 129, 0, 0] },
-                    10 => MOp::User { assoc, kind: gen_user(rng) },
+                    7 | 8 => MOp::Unsol {
+                        assoc,
+                        seq: rng.below(16) as u8,
+                        data: rng.bool(),
+                        con: rng.bool(),
+                    },
+                    9 => MOp::Raw {
+                        src: 1024,
+                        bytes: vec![0xC0 | rng.below(16) as u8, 129, 0, 0],
+                    },
+                    10 => MOp::User {
+                        assoc,
+                        kind: gen_user(rng),
+                    },
                     _ => MOp::NetPlan(vec![rng.below(3) as u8]),
                 });
             }
@@ -222,7 +274,11 @@ impl Scenario for OutcomeScenario {
             cfg,
             chunk: rng.below(5) as u8,
             chunk_seed: rng.next_u64(),
-            latency: if rng.chance(2, 3) { (rng.below(40), rng.below(40)) } else { (0, 0) },
+            latency: if rng.chance(2, 3) {
+                (rng.below(40), rng.below(40))
+            } else {
+                (0, 0)
+            },
             script,
             // long enough for every queued request to run into its own timeouts
             tail_ms: 60_000,
@@ -315,9 +371,19 @@ fn first_func(kind: &UserKind) -> Option<u8> {
 fn expected_steps(kind: &UserKind) -> usize {
     match kind {
         // open, every block, close; the reader aborting in `opened` leads straight to the close, aborting at a block ends the task
-        UserKind::FileRead { blocks, abort_at: None, .. } => *blocks as usize + 2,
-        UserKind::FileRead { abort_at: Some(0), .. } => 2,
-        UserKind::FileRead { blocks, abort_at: Some(k), .. } => {
+        UserKind::FileRead {
+            blocks,
+            abort_at: None,
+            ..
+        } => *blocks as usize + 2,
+        UserKind::FileRead {
+            abort_at: Some(0), ..
+        } => 2,
+        UserKind::FileRead {
+            blocks,
+            abort_at: Some(k),
+            ..
+        } => {
             if *k <= *blocks {
                 *k as usize + 1
             } else {
@@ -351,7 +417,14 @@ fn faithful_echo(a: &Arrival, assoc: u16, step: &Step) -> bool {
         return false;
     }
     let ctrl = refapp::Ctrl::from_u8(a.bytes[0]);
-    a.src == assoc && a.bytes[1] == 129 && ctrl.fir && ctrl.fin && !ctrl.uns && ctrl.seq == step.seq && a.bytes[3] & 0x07 == 0 && a.bytes[4..] == step.bytes[2..]
+    a.src == assoc
+        && a.bytes[1] == 129
+        && ctrl.fir
+        && ctrl.fin
+        && !ctrl.uns
+        && ctrl.seq == step.seq
+        && a.bytes[3] & 0x07 == 0
+        && a.bytes[4..] == step.bytes[2..]
 }
 
 /// weakest form of an acceptable answer to a non-command step
@@ -367,15 +440,33 @@ fn plausible_answer(a: &Arrival, assoc: u16, step: &Step) -> bool {
         && !ctrl.uns
         && ctrl.seq == step.seq
         && a.bytes[3] & 0x07 == 0
-        && (refapp::decode_fragment(&a.bytes).is_ok() || refapp::response_parses_leniently(&a.bytes))
+        && (refapp::decode_fragment(&a.bytes).is_ok()
+            || refapp::response_parses_leniently(&a.bytes))
 }
 
-pub fn analyse(case: &SmastCase, run: &MastRun) -> (Option<Violation>, bool, u64, Vec<(String, u64)>) {
+pub fn analyse(
+    case: &SmastCase,
+    run: &MastRun,
+) -> (Option<Violation>, bool, u64, Vec<(String, u64)>) {
     let hist = master_time_history(case, run);
     let mut counters: BTreeMap<String, u64> = BTreeMap::new();
     let mut bump = |k: &str| *counters.entry(k.to_string()).or_insert(0) += 1;
-    let timeout_of = |addr: u16| case.cfg.assocs.iter().find(|a| a.address == addr).map(|a| a.response_timeout_ms).unwrap_or(5000);
-    let max_queued = |addr: u16| case.cfg.assocs.iter().find(|a| a.address == addr).map(|a| a.max_queued).unwrap_or(16);
+    let timeout_of = |addr: u16| {
+        case.cfg
+            .assocs
+            .iter()
+            .find(|a| a.address == addr)
+            .map(|a| a.response_timeout_ms)
+            .unwrap_or(5000)
+    };
+    let max_queued = |addr: u16| {
+        case.cfg
+            .assocs
+            .iter()
+            .find(|a| a.address == addr)
+            .map(|a| a.max_queued)
+            .unwrap_or(16)
+    };
 
     let mut users: Vec<User> = Vec::new();
     let mut tasks: Vec<Task> = Vec::new();
@@ -393,16 +484,49 @@ pub fn analyse(case: &SmastCase, run: &MastRun) -> (Option<Violation>, bool, u64
         let pos = pos as u64;
         match h {
             H::UserRequest { t, assoc, id, .. } => {
-                let kind = run.user_kinds.iter().find(|u| u.0 == *id).map(|u| u.2.clone());
+                let kind = run
+                    .user_kinds
+                    .iter()
+                    .find(|u| u.0 == *id)
+                    .map(|u| u.2.clone());
                 if let Some(kind) = kind {
-                    let backlog = users.iter().filter(|u| u.assoc == *assoc && u.done.is_none()).count();
-                    users.push(User { id: *id, assoc: *assoc, kind, t: *t, pos, done: None, task: None, backlog, file: Vec::new() });
+                    let backlog = users
+                        .iter()
+                        .filter(|u| u.assoc == *assoc && u.done.is_none())
+                        .count();
+                    users.push(User {
+                        id: *id,
+                        assoc: *assoc,
+                        kind,
+                        t: *t,
+                        pos,
+                        done: None,
+                        task: None,
+                        backlog,
+                        file: Vec::new(),
+                    });
                     queue.entry(*assoc).or_default().push_back(*id);
                 }
             }
-            H::File { t, id, what, block, len, content_ok, detail } => {
+            H::File {
+                t,
+                id,
+                what,
+                block,
+                len,
+                content_ok,
+                detail,
+            } => {
                 if let Some(u) = users.iter_mut().find(|u| u.id == *id) {
-                    u.file.push((*t, pos, what.clone(), *block, *len, *content_ok, detail.clone()));
+                    u.file.push((
+                        *t,
+                        pos,
+                        what.clone(),
+                        *block,
+                        *len,
+                        *content_ok,
+                        detail.clone(),
+                    ));
                     // the outcome of a file transfer is the reader's terminal callback
                     if (what == "completed" || what == "aborted") && u.done.is_none() {
                         u.done = Some((*t, pos, what == "completed", detail.clone()));
@@ -423,7 +547,16 @@ pub fn analyse(case: &SmastCase, run: &MastRun) -> (Option<Violation>, bool, u64
             }
             H::TaskStart { t, assoc, func, .. } => {
                 current.insert(*assoc, tasks.len());
-                tasks.push(Task { assoc: *assoc, start_t: *t, start_pos: pos, func: *func, end: None, steps: Vec::new(), user: None, last_fragment: None });
+                tasks.push(Task {
+                    assoc: *assoc,
+                    start_t: *t,
+                    start_pos: pos,
+                    func: *func,
+                    end: None,
+                    steps: Vec::new(),
+                    user: None,
+                    last_fragment: None,
+                });
             }
             H::TaskSuccess { t, assoc, .. } => {
                 if let Some(i) = current.remove(assoc) {
@@ -435,9 +568,23 @@ pub fn analyse(case: &SmastCase, run: &MastRun) -> (Option<Violation>, bool, u64
                     tasks[i].end = Some((*t, pos, false, err.clone()));
                 }
             }
-            H::Request { t, dest, seq, func, bytes, .. } => {
+            H::Request {
+                t,
+                dest,
+                seq,
+                func,
+                bytes,
+                ..
+            } => {
                 if let Some(i) = current.get(dest) {
-                    tasks[*i].steps.push(Step { written: t.saturating_sub(case.latency.0), pos, order: *order, seq: *seq, func: *func, bytes: bytes.clone() });
+                    tasks[*i].steps.push(Step {
+                        written: t.saturating_sub(case.latency.0),
+                        pos,
+                        order: *order,
+                        seq: *seq,
+                        func: *func,
+                        bytes: bytes.clone(),
+                    });
                 }
             }
             H::End { t, assoc, .. } => {
@@ -445,8 +592,24 @@ pub fn analyse(case: &SmastCase, run: &MastRun) -> (Option<Violation>, bool, u64
                     tasks[*i].last_fragment = Some(*t);
                 }
             }
-            H::PeerTx { t, src, bytes, kind, valid, answers, .. } => {
-                arrivals.push(Arrival { t: *t, pos, src: *src, bytes: bytes.clone(), kind: kind.clone(), valid: *valid, answers: *answers });
+            H::PeerTx {
+                t,
+                src,
+                bytes,
+                kind,
+                valid,
+                answers,
+                ..
+            } => {
+                arrivals.push(Arrival {
+                    t: *t,
+                    pos,
+                    src: *src,
+                    bytes: bytes.clone(),
+                    kind: kind.clone(),
+                    valid: *valid,
+                    answers: *answers,
+                });
             }
             H::LinkRx { t, ctrl, dest, .. } => {
                 // REQUEST_LINK_STATUS from the master (PRM set, function 9)
@@ -472,7 +635,11 @@ pub fn analyse(case: &SmastCase, run: &MastRun) -> (Option<Violation>, bool, u64
                 disturbances.push((*t + case.latency.1, "closed".to_string()));
             }
             H::Op { t, index } => match case.script.get(*index) {
-                Some(MOp::Cut { .. }) | Some(MOp::Disable) | Some(MOp::RemoveAssoc(_)) | Some(MOp::NetPlan(_)) | Some(MOp::Enable) => {
+                Some(MOp::Cut { .. })
+                | Some(MOp::Disable)
+                | Some(MOp::RemoveAssoc(_))
+                | Some(MOp::NetPlan(_))
+                | Some(MOp::Enable) => {
                     disturbances.push((*t, format!("{:?}", case.script[*index])));
                 }
                 Some(MOp::KillMaster) => {
@@ -495,7 +662,11 @@ pub fn analyse(case: &SmastCase, run: &MastRun) -> (Option<Violation>, bool, u64
         assoc_addrs.sort();
         assoc_addrs.dedup();
         for addr in assoc_addrs {
-            let reqs: Vec<usize> = (0..users.len()).filter(|i| users[*i].assoc == addr && !matches!(users[*i].kind, UserKind::LinkStatus)).collect();
+            let reqs: Vec<usize> = (0..users.len())
+                .filter(|i| {
+                    users[*i].assoc == addr && !matches!(users[*i].kind, UserKind::LinkStatus)
+                })
+                .collect();
             let mut next = 0usize;
             for ti in 0..tasks.len() {
                 if tasks[ti].assoc != addr {
@@ -507,7 +678,9 @@ pub fn analyse(case: &SmastCase, run: &MastRun) -> (Option<Violation>, bool, u64
                         return first_func(&u.kind) == Some(task.func)
                             && u.t <= task.start_t
                             && match (&task.end, &u.done) {
-                                (Some((et, _, _, _)), Some((dt, _, _, _))) => *dt >= task.start_t && dt <= et,
+                                (Some((et, _, _, _)), Some((dt, _, _, _))) => {
+                                    *dt >= task.start_t && dt <= et
+                                }
                                 (None, Some((dt, _, ok, _))) => !*ok && *dt >= task.start_t,
                                 (None, None) => true,
                                 (Some(_), None) => false,
@@ -516,7 +689,9 @@ pub fn analyse(case: &SmastCase, run: &MastRun) -> (Option<Violation>, bool, u64
                     first_func(&u.kind) == Some(task.func)
                         && u.t <= task.start_t
                         && match (&task.end, &u.done) {
-                            (Some((et, _, success, _)), Some((dt, _, ok, _))) => et == dt && success == ok,
+                            (Some((et, _, success, _)), Some((dt, _, ok, _))) => {
+                                et == dt && success == ok
+                            }
                             (None, Some((dt, _, ok, _))) => !*ok && *dt >= task.start_t,
                             (None, None) => true,
                             (Some(_), None) => false,
@@ -529,7 +704,8 @@ pub fn analyse(case: &SmastCase, run: &MastRun) -> (Option<Violation>, bool, u64
                         cands.push(j);
                     }
                     // may this request be skipped (it never started)?
-                    let skippable = matches!(&u.done, Some((dt, _, false, _)) if *dt <= task.start_t);
+                    let skippable =
+                        matches!(&u.done, Some((dt, _, false, _)) if *dt <= task.start_t);
                     if !skippable {
                         break;
                     }
@@ -563,7 +739,11 @@ pub fn analyse(case: &SmastCase, run: &MastRun) -> (Option<Violation>, bool, u64
             violation = Some(v);
         }
     };
-    let connected_throughout = |t0: u64, t1: u64| connected_spans.iter().any(|(a, b)| *a < t0 && b.map(|b| b > t1).unwrap_or(true));
+    let connected_throughout = |t0: u64, t1: u64| {
+        connected_spans
+            .iter()
+            .any(|(a, b)| *a < t0 && b.map(|b| b > t1).unwrap_or(true))
+    };
     let disturbed = |t0: u64, t1: u64| disturbances.iter().any(|(t, _)| *t >= t0 && *t <= t1 + 1);
 
     // R1: exactly one outcome for every request, however the run went
@@ -583,6 +763,23 @@ pub fn analyse(case: &SmastCase, run: &MastRun) -> (Option<Violation>, bool, u64
             ));
         }
     }
+    // R10: "shutdown" is reported only when the master was shut down - not for a request that could not be sent, timed out, ...
+    for u in &users {
+        if let Some((t, _, false, outcome)) = &u.done {
+            let shut_down = killed_at.map(|k| k <= *t).unwrap_or(false);
+            // (requests of an association that is being removed are dropped with it: the property names no error for that)
+            let removed = disturbances.iter().any(|(dt, what)| *dt <= *t && what.starts_with("RemoveAssoc"));
+            // (a reader that aborts the transfer itself in `opened` is told so through the drop of the task: error value unspecified)
+            let self_aborted = matches!(u.kind, UserKind::FileRead { abort_at: Some(_), .. });
+            if outcome.contains("Shutdown") && !shut_down && !removed && !self_aborted {
+                fail(Violation::new(
+                    "C16/shutdown-reported-without-shutdown",
+                    kind_name(&u.kind).to_string(),
+                    format!("user request {} ({:?}) failed at {} ms with {} although the master was never shut down", u.id, u.kind, t, outcome),
+                ));
+            }
+        }
+    }
     // a request made after the master task is gone fails at once
     if let Some(k) = killed_at {
         for u in &users {
@@ -597,7 +794,10 @@ pub fn analyse(case: &SmastCase, run: &MastRun) -> (Option<Violation>, bool, u64
     for (w, dest) in &link_requests {
         let timeout = timeout_of(*dest);
         let resolved = users.iter().any(|u| {
-            u.assoc == *dest && matches!(u.kind, UserKind::LinkStatus) && u.t <= *w && matches!(&u.done, Some((dt, _, _, _)) if *dt >= *w && *dt <= *w + timeout + 2)
+            u.assoc == *dest
+                && matches!(u.kind, UserKind::LinkStatus)
+                && u.t <= *w
+                && matches!(&u.done, Some((dt, _, _, _)) if *dt >= *w && *dt <= *w + timeout + 2)
         });
         if !resolved && killed_at.map(|k| k > *w + timeout + 2).unwrap_or(true) {
             let late = users
@@ -622,7 +822,11 @@ pub fn analyse(case: &SmastCase, run: &MastRun) -> (Option<Violation>, bool, u64
     }
     if !mapping_ok || ambiguous {
         // the harness could not pair tasks with user requests beyond doubt: no further verdicts
-        bump(if ambiguous { "probe.task_mapping_ambiguous" } else { "probe.task_mapping_failed" });
+        bump(if ambiguous {
+            "probe.task_mapping_ambiguous"
+        } else {
+            "probe.task_mapping_failed"
+        });
         let out: Vec<(String, u64)> = counters.into_iter().collect();
         return (violation, false, 0, out);
     }
@@ -637,7 +841,12 @@ pub fn analyse(case: &SmastCase, run: &MastRun) -> (Option<Violation>, bool, u64
         // arrivals relevant to a step: after its request was written, before the next step / the end of the task
         let window = |k: usize| -> (u64, u64, u64) {
             let s = &task.steps[k];
-            let until_pos = task.steps.get(k + 1).map(|n| n.pos).or(task.end.as_ref().map(|e| e.1)).unwrap_or(u64::MAX);
+            let until_pos = task
+                .steps
+                .get(k + 1)
+                .map(|n| n.pos)
+                .or(task.end.as_ref().map(|e| e.1))
+                .unwrap_or(u64::MAX);
             (s.written, s.written + timeout, until_pos)
         };
         let in_window = |k: usize, a: &Arrival| {
@@ -661,7 +870,9 @@ pub fn analyse(case: &SmastCase, run: &MastRun) -> (Option<Violation>, bool, u64
                 sel.func == refapp::FUNC_SELECT
                     && s.seq == (sel.seq + 1) & 0x0F
                     && sel.bytes[2..] == s.bytes[2..]
-                    && arrivals.iter().any(|a| in_window_lenient(k - 1, a) && faithful_echo(a, task.assoc, sel))
+                    && arrivals
+                        .iter()
+                        .any(|a| in_window_lenient(k - 1, a) && faithful_echo(a, task.assoc, sel))
             };
             if !ok {
                 fail(Violation::new(
@@ -672,17 +883,36 @@ pub fn analyse(case: &SmastCase, run: &MastRun) -> (Option<Violation>, bool, u64
             }
         }
 
-        let Some((done_t, _, ok, outcome)) = user.done.clone() else { continue };
-        let is_file = matches!(user.kind, UserKind::FileRead { .. } | UserKind::Directory(_));
+        let Some((done_t, _, ok, outcome)) = user.done.clone() else {
+            continue;
+        };
+        let is_file = matches!(
+            user.kind,
+            UserKind::FileRead { .. } | UserKind::Directory(_)
+        );
 
         // F: a file reader gets `opened`, then the blocks in order with the file's contents, then exactly one terminal callback
-        if let UserKind::FileRead { blocks, block_size, abort_at } = &user.kind {
-            let terminals = user.file.iter().filter(|e| e.2 == "completed" || e.2 == "aborted").count();
+        if let UserKind::FileRead {
+            blocks,
+            block_size,
+            abort_at,
+        } = &user.kind
+        {
+            let terminals = user
+                .file
+                .iter()
+                .filter(|e| e.2 == "completed" || e.2 == "aborted")
+                .count();
             if terminals != 1 {
                 fail(Violation::new(
                     "C16/file-reader-terminal-callbacks",
                     format!("{}", terminals),
-                    format!("the FileReader of user request {} received {} terminal callbacks: {:?}", user.id, terminals, user.file.iter().map(|e| e.2.clone()).collect::<Vec<_>>()),
+                    format!(
+                        "the FileReader of user request {} received {} terminal callbacks: {:?}",
+                        user.id,
+                        terminals,
+                        user.file.iter().map(|e| e.2.clone()).collect::<Vec<_>>()
+                    ),
                 ));
             }
             let mut expected_block = 0u32;
@@ -692,18 +922,35 @@ pub fn analyse(case: &SmastCase, run: &MastRun) -> (Option<Violation>, bool, u64
                 let bad = match e.2.as_str() {
                     _ if finished => Some("a callback after the terminal one".to_string()),
                     "opened" => {
-                        let r = if opened { Some("opened twice".to_string()) } else if e.4 != *blocks as usize * *block_size as usize { Some(format!("opened with size {}", e.4)) } else { None };
+                        let r = if opened {
+                            Some("opened twice".to_string())
+                        } else if e.4 != *blocks as usize * *block_size as usize {
+                            Some(format!("opened with size {}", e.4))
+                        } else {
+                            None
+                        };
                         opened = true;
                         r
                     }
                     "block" => {
-                        let last_flag = if expected_block + 1 == *blocks as u32 { 0x8000_0000u32 } else { 0 };
+                        let last_flag = if expected_block + 1 == *blocks as u32 {
+                            0x8000_0000u32
+                        } else {
+                            0
+                        };
                         let r = if !opened {
                             Some("block before opened".to_string())
                         } else if e.3 & 0x7FFF_FFFF != expected_block {
-                            Some(format!("block {} delivered when block {} was due", e.3 & 0x7FFF_FFFF, expected_block))
+                            Some(format!(
+                                "block {} delivered when block {} was due",
+                                e.3 & 0x7FFF_FFFF,
+                                expected_block
+                            ))
                         } else if !e.5 || e.4 != *block_size as usize {
-                            Some(format!("block {} delivered with wrong contents or length {}", expected_block, e.4))
+                            Some(format!(
+                                "block {} delivered with wrong contents or length {}",
+                                expected_block, e.4
+                            ))
                         } else {
                             None
                         };
@@ -714,7 +961,10 @@ pub fn analyse(case: &SmastCase, run: &MastRun) -> (Option<Violation>, bool, u64
                     "completed" => {
                         finished = true;
                         if expected_block != *blocks as u32 {
-                            Some(format!("completed after {} of {} blocks", expected_block, blocks))
+                            Some(format!(
+                                "completed after {} of {} blocks",
+                                expected_block, blocks
+                            ))
                         } else if abort_at.map(|k| k <= *blocks).unwrap_or(false) {
                             Some("completed although the reader asked to abort".to_string())
                         } else {
@@ -730,7 +980,16 @@ pub fn analyse(case: &SmastCase, run: &MastRun) -> (Option<Violation>, bool, u64
                     fail(Violation::new(
                         "C16/file-reader-callback-sequence",
                         b.split(' ').next().unwrap_or("").to_string(),
-                        format!("FileReader of user request {} ({:?}): {}; callbacks: {:?}", user.id, user.kind, b, user.file.iter().map(|e| (e.2.clone(), e.3 & 0x7FFF_FFFF)).collect::<Vec<_>>()),
+                        format!(
+                            "FileReader of user request {} ({:?}): {}; callbacks: {:?}",
+                            user.id,
+                            user.kind,
+                            b,
+                            user.file
+                                .iter()
+                                .map(|e| (e.2.clone(), e.3 & 0x7FFF_FFFF))
+                                .collect::<Vec<_>>()
+                        ),
                     ));
                     break;
                 }
@@ -743,11 +1002,24 @@ pub fn analyse(case: &SmastCase, run: &MastRun) -> (Option<Violation>, bool, u64
             let mut all = steps_ok;
             let mut missing = String::new();
             for (k, s) in task.steps.iter().enumerate() {
-                let found = arrivals.iter().any(|a| in_window_lenient(k, a) && if is_command { faithful_echo(a, task.assoc, s) } else { plausible_answer(a, task.assoc, s) });
+                let found = arrivals.iter().any(|a| {
+                    in_window_lenient(k, a)
+                        && if is_command {
+                            faithful_echo(a, task.assoc, s)
+                        } else {
+                            plausible_answer(a, task.assoc, s)
+                        }
+                });
                 // READ series: the first fragment need not be final
                 let found = found
                     || (s.func == refapp::FUNC_READ
-                        && arrivals.iter().any(|a| in_window_lenient(k, a) && a.src == task.assoc && a.bytes.len() >= 4 && a.bytes[1] == 129 && a.bytes[0] & 0x0F == s.seq));
+                        && arrivals.iter().any(|a| {
+                            in_window_lenient(k, a)
+                                && a.src == task.assoc
+                                && a.bytes.len() >= 4
+                                && a.bytes[1] == 129
+                                && a.bytes[0] & 0x0F == s.seq
+                        }));
                 if !found {
                     all = false;
                     missing = format!("step {} (function {}, seq {})", k, s.func, s.seq);
@@ -770,7 +1042,10 @@ pub fn analyse(case: &SmastCase, run: &MastRun) -> (Option<Violation>, bool, u64
 
         // R2: bounded by the protocol steps - each wait ends at most one response timeout after the last progress
         if let (Some(end_t), Some(last)) = (end_t, task.steps.last()) {
-            let progress = task.last_fragment.map(|f| f.max(last.written)).unwrap_or(last.written);
+            let progress = task
+                .last_fragment
+                .map(|f| f.max(last.written))
+                .unwrap_or(last.written);
             if end_t > progress + timeout + 2 {
                 fail(Violation::new(
                     "C16/outcome-later-than-response-timeout",
@@ -786,14 +1061,19 @@ pub fn analyse(case: &SmastCase, run: &MastRun) -> (Option<Violation>, bool, u64
                 fail(Violation::new(
                     "C16/outcome-not-at-task-end",
                     format!("{}", kind_name(&user.kind)),
-                    format!("user request {} resolved at {} ms but its task ended at {} ms", user.id, done_t, end_t),
+                    format!(
+                        "user request {} resolved at {} ms but its task ended at {} ms",
+                        user.id, done_t, end_t
+                    ),
                 ));
             }
         }
 
         // verdict per step for the "clean" direction
         // clean = nothing but clearly ignorable fragments arrived before the scripted outstation's valid answer, which arrived in time
-        let undisturbed = connected_throughout(user.t, done_t) && !disturbed(user.t, done_t) && user.backlog < max_queued(user.assoc);
+        let undisturbed = connected_throughout(user.t, done_t)
+            && !disturbed(user.t, done_t)
+            && user.backlog < max_queued(user.assoc);
         let mut verdicts: Vec<&'static str> = Vec::new();
         for (k, s) in task.steps.iter().enumerate() {
             let (_, deadline, _) = window(k);
@@ -806,7 +1086,11 @@ pub fn analyse(case: &SmastCase, run: &MastRun) -> (Option<Violation>, bool, u64
                 if a.valid && a.answers == Some(s.order) && a.src == task.assoc {
                     let ctrl = refapp::Ctrl::from_u8(a.bytes[0]);
                     if s.func == refapp::FUNC_READ {
-                        v = if ctrl.fir && ctrl.fin { "valid" } else { "series" };
+                        v = if ctrl.fir && ctrl.fin {
+                            "valid"
+                        } else {
+                            "series"
+                        };
                     } else if is_command && !faithful_echo(a, task.assoc, s) {
                         v = "other";
                     } else {
@@ -826,10 +1110,27 @@ pub fn analyse(case: &SmastCase, run: &MastRun) -> (Option<Violation>, bool, u64
                             "other"
                         }
                     }
-                    "iin" if a.bytes.len() >= 4 && a.bytes[3] & 0x07 != 0 && a.bytes[0] & 0xF0 == 0xC0 && a.src == task.assoc && a.bytes[0] & 0x0F == s.seq => "iin2",
+                    "iin"
+                        if a.bytes.len() >= 4
+                            && a.bytes[3] & 0x07 != 0
+                            && a.bytes[0] & 0xF0 == 0xC0
+                            && a.src == task.assoc
+                            && a.bytes[0] & 0x0F == s.seq =>
+                    {
+                        "iin2"
+                    }
                     _ => {
-                        if std::env::var("C16_DEBUG2").is_ok() && (a.kind == "foreign" || a.kind == "stale") {
-                            eprintln!("OTHER {:?} assoc {} step seq {} func {} decode {:?}", a, task.assoc, s.seq, s.func, refapp::decode_fragment(&a.bytes).map(|_| ()));
+                        if std::env::var("C16_DEBUG2").is_ok()
+                            && (a.kind == "foreign" || a.kind == "stale")
+                        {
+                            eprintln!(
+                                "OTHER {:?} assoc {} step seq {} func {} decode {:?}",
+                                a,
+                                task.assoc,
+                                s.seq,
+                                s.func,
+                                refapp::decode_fragment(&a.bytes).map(|_| ())
+                            );
                         }
                         "other"
                     }
@@ -842,7 +1143,13 @@ pub fn analyse(case: &SmastCase, run: &MastRun) -> (Option<Violation>, bool, u64
                 v = "tie";
             }
             if std::env::var("C16_DEBUG").is_ok() {
-                eprintln!("task {} step {} verdict {} window {:?}", ti, k, v, window(k));
+                eprintln!(
+                    "task {} step {} verdict {} window {:?}",
+                    ti,
+                    k,
+                    v,
+                    window(k)
+                );
             }
             verdicts.push(v);
             fp = mix(&[fp, v.len() as u64, v.as_bytes()[0] as u64]);
@@ -854,7 +1161,8 @@ pub fn analyse(case: &SmastCase, run: &MastRun) -> (Option<Violation>, bool, u64
             continue;
         }
         fp = mix(&[fp, ok as u64]);
-        let all_valid = verdicts.len() == expected_steps(&user.kind) && verdicts.iter().all(|v| *v == "valid");
+        let all_valid =
+            verdicts.len() == expected_steps(&user.kind) && verdicts.iter().all(|v| *v == "valid");
         bump(&format!("probe.kind.{}", kind_name(&user.kind)));
         if all_valid {
             bump("probe.undisturbed_faithfully_answered");
@@ -876,7 +1184,13 @@ pub fn analyse(case: &SmastCase, run: &MastRun) -> (Option<Violation>, bool, u64
             }
         }
         // R5: a request whose every step was answered faithfully and in time, with nothing else going on, succeeds
-        if let (true, UserKind::FileRead { blocks, abort_at, .. }) = (all_valid, &user.kind) {
+        if let (
+            true,
+            UserKind::FileRead {
+                blocks, abort_at, ..
+            },
+        ) = (all_valid, &user.kind)
+        {
             let want_completed = !abort_at.map(|k| k <= *blocks).unwrap_or(false);
             if ok != want_completed {
                 fail(Violation::new(
@@ -899,7 +1213,10 @@ pub fn analyse(case: &SmastCase, run: &MastRun) -> (Option<Violation>, bool, u64
                 fail(Violation::new(
                     "C16/directory-listing-differs",
                     "",
-                    format!("user request {} asked for a directory of {} entries and was told {}", user.id, n, outcome),
+                    format!(
+                        "user request {} asked for a directory of {} entries and was told {}",
+                        user.id, n, outcome
+                    ),
                 ));
             }
         }
@@ -918,7 +1235,10 @@ pub fn analyse(case: &SmastCase, run: &MastRun) -> (Option<Violation>, bool, u64
                 match *last {
                     "silent" => {
                         let at = last_step.written + timeout;
-                        if !outcome.contains("ResponseTimeout") || done_t + 1 < at || done_t > at + 2 {
+                        if !outcome.contains("ResponseTimeout")
+                            || done_t + 1 < at
+                            || done_t > at + 2
+                        {
                             fail(Violation::new(
                                 "C16/wrong-outcome-for-lost-reply",
                                 format!("{}", kind_name(&user.kind)),
@@ -957,7 +1277,12 @@ pub fn analyse(case: &SmastCase, run: &MastRun) -> (Option<Violation>, bool, u64
                     _ => {}
                 }
             }
-            if prior_valid && !ok && is_file && *last == "silent" && !outcome.contains("ResponseTimeout") {
+            if prior_valid
+                && !ok
+                && is_file
+                && *last == "silent"
+                && !outcome.contains("ResponseTimeout")
+            {
                 fail(Violation::new(
                     "C16/wrong-outcome-for-lost-reply",
                     "file-read",
@@ -968,7 +1293,13 @@ pub fn analyse(case: &SmastCase, run: &MastRun) -> (Option<Violation>, bool, u64
                 fail(Violation::new(
                     "C16/success-despite-deviation",
                     format!("{} {}", kind_name(&user.kind), last),
-                    format!("user request {} ({:?}) reported success although step {} was '{}'", user.id, user.kind, verdicts.len() - 1, last),
+                    format!(
+                        "user request {} ({:?}) reported success although step {} was '{}'",
+                        user.id,
+                        user.kind,
+                        verdicts.len() - 1,
+                        last
+                    ),
                 ));
             }
         }
@@ -1000,7 +1331,10 @@ fn status_only_deviation(resp: &[u8], req: &[u8]) -> bool {
         return false;
     }
     let (a, b) = (&resp[4..], &req[2..]);
-    let (Ok((_, ao)), Ok((_, bo))) = (refapp::decode_objects(a, true), refapp::decode_objects(b, true)) else {
+    let (Ok((_, ao)), Ok((_, bo))) = (
+        refapp::decode_objects(a, true),
+        refapp::decode_objects(b, true),
+    ) else {
         return false;
     };
     if ao.len() != bo.len() {
@@ -1012,7 +1346,12 @@ fn status_only_deviation(resp: &[u8], req: &[u8]) -> bool {
         if x == y {
             continue;
         }
-        if x.group != y.group || x.var != y.var || x.index != y.index || x.raw.len() != y.raw.len() || x.raw.is_empty() {
+        if x.group != y.group
+            || x.var != y.var
+            || x.index != y.index
+            || x.raw.len() != y.raw.len()
+            || x.raw.is_empty()
+        {
             return false;
         }
         let n = x.raw.len() - 1;
